@@ -50,12 +50,44 @@ Section Generic.
     | LRest _ lim => exists bs, v = VAtom (ABytes bs) /\
                        match lim with Some m => (lenN bs <= m)%N | None => True end
     | LConst p k => v = VUnit /\ dom p k
+    | LTag _ p a => exists z x, v = VPair (VAtom (AZ z)) x /\ dom p (AZ z) /\ in_dom a (set_tag c z) x
+    | LSel k a b => if ctag c =? k then in_dom a c v else in_dom b c v
+    | LFail => False
     end.
+
+  (* ---------- the tag in the context is only read by LSel ---------- *)
+  Lemma eval_guard_tag g c z : eval_guard g (set_tag c z) = eval_guard g c.
+  Proof. induction g; cbn [eval_guard]; try reflexivity; try (rewrite IHg; reflexivity); rewrite IHg1, IHg2; reflexivity. Qed.
+
+  Lemma resolve_tag : forall l c z, resolve F l (set_tag c z) = resolve F l c.
+  Proof.
+    induction l as [| f p | a IHa b IHb | g a IHa b IHb | f a IHa b IHb | f o a IHa | f lim | p k | f p a IHa | k a IHa b IHb | ]; intros c z;
+      cbn [resolve]; try reflexivity; try (rewrite ?IHa, ?IHb; reflexivity).
+    rewrite eval_guard_tag. destruct (eval_guard g c); [apply IHa | apply IHb].
+  Qed.
+  Lemma norest_tag : forall l c z, norest F l (set_tag c z) = norest F l c.
+  Proof.
+    induction l as [| f p | a IHa b IHb | g a IHa b IHb | f a IHa b IHb | f o a IHa | f lim | p k | f p a IHa | k a IHa b IHb | ]; intros c z;
+      cbn [norest]; try reflexivity; try (rewrite ?IHa, ?IHb; reflexivity).
+    rewrite eval_guard_tag. destruct (eval_guard g c); [apply IHa | apply IHb].
+  Qed.
+  Lemma minsz_tag : forall l c z, minsz F l (set_tag c z) = minsz F l c.
+  Proof.
+    induction l as [| f p | a IHa b IHb | g a IHa b IHb | f a IHa b IHb | f o a IHa | f lim | p k | f p a IHa | k a IHa b IHb | ]; intros c z;
+      cbn [minsz]; try reflexivity; try (rewrite ?IHa, ?IHb; reflexivity).
+    rewrite eval_guard_tag. destruct (eval_guard g c); [apply IHa | apply IHb].
+  Qed.
+  Lemma wf_tag : forall l c z, wf F l (set_tag c z) = wf F l c.
+  Proof.
+    induction l as [| f p | a IHa b IHb | g a IHa b IHb | f a IHa b IHb | f o a IHa | f lim | p k | f p a IHa | k a IHa b IHb | ]; intros c z;
+      cbn [wf]; try reflexivity; try (rewrite ?IHa, ?IHb, ?norest_tag, ?minsz_tag; reflexivity).
+    rewrite eval_guard_tag. destruct (eval_guard g c); [apply IHa | apply IHb].
+  Qed.
 
   (* ---------- resolve ---------- *)
   Lemma enc_resolve : forall l c v, enc_L F (resolve F l c) c v = enc_L F l c v.
   Proof.
-    induction l as [| f p | a IHa b IHb | g a IHa b IHb | f a IHa b IHb | f o a IHa | f lim | p k]; intros c v;
+    induction l as [| f p | a IHa b IHb | g a IHa b IHb | f a IHa b IHb | f o a IHa | f lim | p k | f p a IHa | k a IHa b IHb | ]; intros c v;
       cbn [resolve enc_L]; try reflexivity.
     - destruct v; try reflexivity. rewrite IHa, IHb. reflexivity.
     - destruct (eval_guard g c); [apply IHa | apply IHb].
@@ -64,6 +96,9 @@ Section Generic.
       assert (E : enc_all (enc_L F (resolve F a c) c) vs = enc_all (enc_L F a c) vs).
       { induction vs as [|x r IH]; [reflexivity|]. cbn [enc_all]. rewrite IHa, IH. reflexivity. }
       rewrite E. reflexivity.
+    - destruct v as [| | v1 x | |]; try reflexivity. destruct v1 as [|a0| | |]; try reflexivity. destruct a0 as [z| |]; try reflexivity.
+      rewrite <- (resolve_tag a c z), IHa. reflexivity.
+    - destruct (ctag c =? k); [apply IHa | apply IHb].
   Qed.
 
   Lemma dec_many_ext : forall d1 d2, (forall bs, d1 bs = d2 bs) ->
@@ -76,7 +111,7 @@ Section Generic.
 
   Lemma dec_resolve : forall l c bs, dec_T F (resolve F l c) c bs = dec_T F l c bs.
   Proof.
-    induction l as [| f p | a IHa b IHb | g a IHa b IHb | f a IHa b IHb | f o a IHa | f lim | p k]; intros c bs;
+    induction l as [| f p | a IHa b IHb | g a IHa b IHb | f a IHa b IHb | f o a IHa | f lim | p k | f p a IHa | k a IHa b IHb | ]; intros c bs;
       cbn [resolve dec_T]; try reflexivity.
     - rewrite IHa. destruct (dec_T F a c bs) as [n1 [[x rest]|e]]; [|reflexivity]. rewrite IHb. reflexivity.
     - destruct (eval_guard g c); [apply IHa | apply IHb].
@@ -84,6 +119,9 @@ Section Generic.
     - destruct (dec_count F bs) as [[n rest]|e]; [|reflexivity].
       destruct (n <? 0); [reflexivity|]. destruct (match rcap o with Some m => m <? n | None => false end); [reflexivity|].
       apply dec_many_ext. intro. apply IHa.
+    - destruct (dec_prim F p bs) as [[[z| |] rest]|e]; try reflexivity.
+      rewrite <- (resolve_tag a c z), IHa. reflexivity.
+    - destruct (ctag c =? k); [apply IHa | apply IHb].
   Qed.
 
   (* ---------- equal layouts encode alike ---------- *)
@@ -92,8 +130,8 @@ Section Generic.
 
   Lemma enc_eqb : forall x y, layout_eqb F x y = true -> forall c v, enc_L F x c v = enc_L F y c v.
   Proof.
-    induction x as [| f p | a IHa b IHb | g a IHa b IHb | f a IHa b IHb | f o a IHa | f lim | p k];
-      intros y H c v; destruct y as [| f' p' | a' b' | g' a' b' | f' a' b' | f' o' a' | f' lim' | p' k'];
+    induction x as [| f p | a IHa b IHb | g a IHa b IHb | f a IHa b IHb | f o a IHa | f lim | p k | f p a IHa | k a IHa b IHb | ];
+      intros y H c v; destruct y as [| f' p' | a' b' | g' a' b' | f' a' b' | f' o' a' | f' lim' | p' k' | f' p' a' | k' a' b' | ];
       cbn [layout_eqb] in H; try discriminate; cbn [enc_L].
     - reflexivity.
     - apply andb_true_iff in H as [_ H]. destruct v; try reflexivity. apply (ok_prim_eqb F dom OK); assumption.
@@ -106,6 +144,12 @@ Section Generic.
     - reflexivity.
     - apply andb_true_iff in H as [H Hk]. apply atom_eqb_eq in Hk. subst k'.
       destruct v; try reflexivity. apply (ok_prim_eqb F dom OK); assumption.
+    - apply andb_true_iff in H as [H H2]. apply andb_true_iff in H as [_ H1].
+      destruct v as [| | v1 x | |]; try reflexivity. destruct v1 as [|a0| | |]; try reflexivity. destruct a0 as [z| |]; try reflexivity.
+      rewrite (ok_prim_eqb F dom OK p p' (AZ z) H1), (IHa _ H2). reflexivity.
+    - apply andb_true_iff in H as [H H2]. apply andb_true_iff in H as [Hk H1]. apply Z.eqb_eq in Hk. subst k'.
+      destruct (ctag c =? k); [apply (IHa _ H1) | apply (IHb _ H2)].
+    - reflexivity.
   Qed.
 
   Theorem enc_eqb_at : forall c x y, layout_eqb_at F c x y = true -> forall v, enc_L F x c v = enc_L F y c v.
@@ -132,7 +176,7 @@ Section Generic.
     (length rest + N.to_nat (minsz F l c) <= length bs)%nat.
   Proof.
     unfold dec_L.
-    induction l as [| f p | a IHa b IHb | g a IHa b IHb | f a IHa b IHb | f o a IHa | f lim | p k];
+    induction l as [| f p | a IHa b IHb | g a IHa b IHb | f a IHa b IHb | f o a IHa | f lim | p k | f p a IHa | k a IHa b IHb | ];
       intros c bs v rest W H; cbn [dec_T minsz wf] in *.
     - inversion H; subst. lia.
     - cbn [snd] in H. destruct (dec_prim F p bs) as [[a r]|e] eqn:E; [|discriminate]. inversion H; subst.
@@ -167,6 +211,14 @@ Section Generic.
       cbn [snd] in H. inversion H; subst. cbn. lia.
     - cbn [snd] in H. destruct (dec_prim F p bs) as [[a r]|e] eqn:E; [|discriminate]. inversion H; subst.
       apply (ok_prim_min F dom OK) in E. exact E.
+    - destruct (dec_prim F p bs) as [[[z| |] r0]|e] eqn:E; try discriminate H.
+      apply (ok_prim_min F dom OK) in E.
+      destruct (dec_T F a (set_tag c z) r0) as [n [[x r1]|e]] eqn:Ea; [|discriminate H].
+      cbn [snd] in H. inversion H; subst.
+      specialize (IHa (set_tag c z) r0 x rest). rewrite wf_tag, minsz_tag, Ea in IHa. specialize (IHa W eq_refl). lia.
+    - apply andb_true_iff in W as [Wa Wb].
+      destruct (ctag c =? k); [specialize (IHa c bs v rest Wa H) | specialize (IHb c bs v rest Wb H)]; lia.
+    - discriminate H.
   Qed.
 
   (* ---------- round trip ---------- *)
@@ -208,7 +260,7 @@ Section Generic.
     exists bs, enc_L F l c v = Ok bs /\ dec_L F l c (bs ++ rest) = Ok (v, rest).
   Proof.
     unfold dec_L.
-    induction l as [| f p | a IHa b IHb | g a IHa b IHb | f a IHa b IHb | f o a IHa | f lim | p k];
+    induction l as [| f p | a IHa b IHb | g a IHa b IHb | f a IHa b IHb | f o a IHa | f lim | p k | f p a IHa | k a IHa b IHb | ];
       intros c v rest W D R; cbn [wf in_dom norest] in *.
     - subst v. exists []. split; reflexivity.
     - destruct D as [a [-> Da]]. destruct (ok_prim_rt F dom OK p a rest Da) as [bs [E Dd]].
@@ -274,6 +326,18 @@ Section Generic.
       reflexivity.
     - destruct D as [-> Dk]. destruct (ok_prim_rt F dom OK p k rest Dk) as [bs [E Dd]].
       exists bs. split; [exact E|]. cbn [dec_T snd]. rewrite Dd. reflexivity.
+    - destruct D as [z [x [-> [Dz Dx]]]].
+      destruct (IHa (set_tag c z) x rest) as [b2 [E2 D2]]; [rewrite wf_tag; exact W | exact Dx | rewrite norest_tag; exact R |].
+      destruct (ok_prim_rt F dom OK p (AZ z) (b2 ++ rest) Dz) as [b1 [E1 D1]].
+      exists (b1 ++ b2). split.
+      + cbn [enc_L]. rewrite E1. cbn [bind]. rewrite E2. reflexivity.
+      + cbn [dec_T]. rewrite <- app_assoc, D1.
+        destruct (dec_T F a (set_tag c z) (b2 ++ rest)) as [n r]. cbn [snd] in D2. subst r. reflexivity.
+    - apply andb_true_iff in W as [Wa Wb]. cbn [enc_L dec_T].
+      destruct (ctag c =? k).
+      + apply IHa; [exact Wa | exact D |]. intro Hn. apply R. rewrite Hn. reflexivity.
+      + apply IHb; [exact Wb | exact D |]. intro Hn. apply R. rewrite Hn. apply andb_false_r.
+    - destruct D.
   Qed.
 
   (* Encode's layout and Decode's layout agree at c, Decode's is well formed: Decode inverts Encode on
